@@ -48,13 +48,15 @@ extern ssize_t mpt_array_push(MPT_STRUCT(encode_array) *arr, size_t len, const v
 			return MPT_ERROR(BadType);
 		}
 		max = arr->_state.done + arr->_state.scratch;
-		if (!(dest = mpt_array_insert(&arr->_d, max, len))) {
+		/* active data is at end of used space, keep consumed data in front of it */
+		add = (b && max && b->_used > (size_t) max) ? b->_used - max : 0;
+		if (!(dest = mpt_array_insert(&arr->_d, add + max, len))) {
 			return MPT_ERROR(MissingBuffer);
 		}
 		b = arr->_d._buf;
 		memcpy(dest, data, len);
 		arr->_state.scratch += len;
-		b->_used = max + len;
+		b->_used = add + max + len;
 		
 		return len;
 	}
